@@ -215,43 +215,43 @@ func (b EvaluationKeys) WriteTo(w io.Writer) (n int64, err error) {
 
 		inc, err = writeEvkKey(b.EvkN1ToN2, w)
 		if err != nil {
-			return inc, fmt.Errorf("cannot write EvkN1ToN2 evaluation key: %w", err)
+			return n + inc, fmt.Errorf("cannot write EvkN1ToN2 evaluation key: %w", err)
 		}
 		n += inc
 
 		inc, err = writeEvkKey(b.EvkN2ToN1, w)
 		if err != nil {
-			return inc, fmt.Errorf("cannot write EvkN2ToN1 evaluation key: %w", err)
+			return n + inc, fmt.Errorf("cannot write EvkN2ToN1 evaluation key: %w", err)
 		}
 		n += inc
 
 		inc, err = writeEvkKey(b.EvkRealToCmplx, w)
 		if err != nil {
-			return inc, fmt.Errorf("cannot write EvkRealToCmplx evaluation key: %w", err)
+			return n + inc, fmt.Errorf("cannot write EvkRealToCmplx evaluation key: %w", err)
 		}
 		n += inc
 
 		inc, err = writeEvkKey(b.EvkCmplxToReal, w)
 		if err != nil {
-			return inc, fmt.Errorf("cannot write EvkCmplxToReal evaluation key: %w", err)
+			return n + inc, fmt.Errorf("cannot write EvkCmplxToReal evaluation key: %w", err)
 		}
 		n += inc
 
 		inc, err = writeEvkKey(b.EvkDenseToSparse, w)
 		if err != nil {
-			return inc, fmt.Errorf("cannot write EvkDenseToSparse evaluation key: %w", err)
+			return n + inc, fmt.Errorf("cannot write EvkDenseToSparse evaluation key: %w", err)
 		}
 		n += inc
 
 		inc, err = writeEvkKey(b.EvkSparseToDense, w)
 		if err != nil {
-			return inc, fmt.Errorf("cannot write EvkSparseToDense evaluation key: %w", err)
+			return n + inc, fmt.Errorf("cannot write EvkSparseToDense evaluation key: %w", err)
 		}
 		n += inc
 
 		if b.MemEvaluationKeySet != nil {
 			if inc, err = buffer.WriteUint8(w, 1); err != nil {
-				return inc, err
+				return n + inc, err
 			}
 			n += inc
 
@@ -262,7 +262,7 @@ func (b EvaluationKeys) WriteTo(w io.Writer) (n int64, err error) {
 
 		} else {
 			if inc, err = buffer.WriteUint8(w, 0); err != nil {
-				return inc, err
+				return n + inc, err
 			}
 			n += inc
 		}
@@ -292,44 +292,44 @@ func (b *EvaluationKeys) ReadFrom(r io.Reader) (n int64, err error) {
 
 		b.EvkN1ToN2, inc, err = readEvkKey(r)
 		if err != nil {
-			return inc, fmt.Errorf("unable to read EvkN1ToN2 evaluation key: %w", err)
+			return n + inc, fmt.Errorf("unable to read EvkN1ToN2 evaluation key: %w", err)
 		}
 		n += inc
 
 		b.EvkN2ToN1, inc, err = readEvkKey(r)
 		if err != nil {
-			return inc, fmt.Errorf("unable to read EvkN2ToN1 evaluation key: %w", err)
+			return n + inc, fmt.Errorf("unable to read EvkN2ToN1 evaluation key: %w", err)
 		}
 		n += inc
 
 		b.EvkRealToCmplx, inc, err = readEvkKey(r)
 		if err != nil {
-			return inc, fmt.Errorf("unable to read EvkRealToCmplx evaluation key: %w", err)
+			return n + inc, fmt.Errorf("unable to read EvkRealToCmplx evaluation key: %w", err)
 		}
 		n += inc
 
 		b.EvkCmplxToReal, inc, err = readEvkKey(r)
 		if err != nil {
-			return inc, fmt.Errorf("unable to read EvkCmplxToReal evaluation key: %w", err)
+			return n + inc, fmt.Errorf("unable to read EvkCmplxToReal evaluation key: %w", err)
 		}
 		n += inc
 
 		b.EvkDenseToSparse, inc, err = readEvkKey(r)
 		if err != nil {
-			return inc, fmt.Errorf("unable to read EvkDenseToSparse evaluation key: %w", err)
+			return n + inc, fmt.Errorf("unable to read EvkDenseToSparse evaluation key: %w", err)
 		}
 		n += inc
 
 		b.EvkSparseToDense, inc, err = readEvkKey(r)
 		if err != nil {
-			return inc, fmt.Errorf("unable to read EvkSparseToDense evaluation key: %w", err)
+			return n + inc, fmt.Errorf("unable to read EvkSparseToDense evaluation key: %w", err)
 		}
 		n += inc
 
 		var hasKey uint8
 
 		if inc, err = buffer.ReadUint8(r, &hasKey); err != nil {
-			return inc, err
+			return n + inc, err
 		}
 		n += inc
 
@@ -338,7 +338,7 @@ func (b *EvaluationKeys) ReadFrom(r io.Reader) (n int64, err error) {
 			b.MemEvaluationKeySet = new(rlwe.MemEvaluationKeySet)
 
 			if inc, err = b.MemEvaluationKeySet.ReadFrom(r); err != nil {
-				return inc, err
+				return n + inc, err
 			}
 
 			n += inc
@@ -362,17 +362,17 @@ func writeEvkKey(key *rlwe.EvaluationKey, w buffer.Writer) (n int64, err error) 
 
 	if key != nil {
 		if inc, err = buffer.WriteUint8(w, 1); err != nil {
-			return inc, err
+			return n + inc, err
 		}
 		n += inc
 
 		if inc, err = key.WriteTo(w); err != nil {
-			return inc, err
+			return n + inc, err
 		}
 		n += inc
 	} else {
 		if inc, err = buffer.WriteUint8(w, 0); err != nil {
-			return inc, err
+			return n + inc, err
 		}
 		n += inc
 	}
